@@ -7,4 +7,5 @@ import DoviModel.Proofs.HevcStage
 import DoviModel.Proofs.HevcOptMap
 import DoviModel.Proofs.HevcMux
 import DoviModel.Proofs.HevcDemuxMux
+import DoviModel.Proofs.HevcCanonical
 /-! helper lemmas about the stream-command model (Model/Hevc.lean), by topic -/
